@@ -26,7 +26,6 @@ pub struct Case {
 
 pub const F_E2: &str = "C10-ambiguous-computed-name-unaliased-join";
 
-const ALL_NAMES: &[&str] = &["id", "a", "b", "k", "s", "x", "f", "u"];
 
 pub fn gen_case(t: &mut Tape) -> Case {
     let mut cfg = GenCfg::general();
@@ -34,6 +33,26 @@ pub fn gen_case(t: &mut Tape) -> Case {
     cfg.allow_append = false;
     cfg.max_steps = 6;
     let mut g = Gen::new(t, cfg);
+    // sometimes two of the table columns are named like functions of the standard library that
+    // the generator itself never calls: out of frame such a name resolves to the function
+    if g.t.chance(1, 3) {
+        let mut names = crate::model::gen::Names::plain();
+        const STD_NAMES: &[&str] = &["stddev", "any", "all", "concat_array", "add", "neg", "coalesce", "tuple_every", "read_csv", "mul"];
+        let i = g.t.choose(names.cols.len());
+        let mut j = g.t.choose(names.cols.len());
+        if j == i {
+            j = (i + 1) % names.cols.len();
+        }
+        let a = g.t.choose(STD_NAMES.len());
+        let mut b = g.t.choose(STD_NAMES.len());
+        if b == a {
+            b = (a + 1) % STD_NAMES.len();
+        }
+        names.cols[i] = STD_NAMES[a].to_string();
+        names.cols[j] = STD_NAMES[b].to_string();
+        g = g.with_names(names);
+    }
+    let all_names: Vec<String> = std::iter::once(g.names.id.clone()).chain(g.names.cols.iter().cloned()).collect();
     g.gen_db();
     g.gen_funcs();
     g.gen_lets();
@@ -51,7 +70,7 @@ pub fn gen_case(t: &mut Tape) -> Case {
     };
     let base = print::program(&prog).trim_end().to_string();
     let names: Vec<String> = frame.cols.iter().filter_map(|c| c.name.clone()).collect();
-    let dropped: Vec<&str> = ALL_NAMES.iter().copied().filter(|n| !names.iter().any(|m| m == n)).collect();
+    let dropped: Vec<&str> = all_names.iter().map(|s| s.as_str()).filter(|n| !names.iter().any(|m| m == n)).collect();
     // valid continuation so that the edit is not the last step
     let tail = *t.pick(&[" | take 10", " | filter true", " | take 1..5 | filter true", ""]);
     let kind = t.choose(5);
